@@ -443,3 +443,339 @@ Proof.
   split; [reflexivity|]. split; [apply wf_init|]. split; [apply eof_ok_init|]. split; [exact ex_benign|].
   split; [vm_compute; discriminate|]. vm_compute. repeat split; reflexivity.
 Qed.
+
+(* ================================================================== *)
+(* Extension (session 3): EAGAIN -- errno in the kernel outcome stream  *)
+(* ================================================================== *)
+(* C12/Eagain.v: the kernel answers KXfer n | KZero | KErrno e (Eagain = KErrno 11, EINTR = KErrno 4).
+   The five call sites are re-modelled over this stream with the C code's only errno test
+   ( if (errno == EINTR) continue; return SQFS_ERROR_IO; ) written out, and proved equal to the
+   IoModel loops on the classified stream; run_k = run on the classified stream.  Every theorem
+   above that is stated "for every stream" therefore holds for every errno-carrying stream; the
+   theorems below add the operations that had only benign-stream contracts so far. *)
+From SqfsV Require Import C12.Eagain C12.FailStop C12.FailStopOut.
+
+(* (1) the five loops over the errno-carrying stream are the IoModel loops on [map classify ks] *)
+Theorem refill_errno_stream : forall bufsz ks used src,
+  refill bufsz used src (map classify ks) =
+  let '(r, g, e, s, t, rest) := refill_k bufsz used src ks in (r, g, e, s, t, map classify rest).
+Proof. exact refill_k_sim. Qed.
+Print Assumptions refill_errno_stream.
+
+Theorem write_all_errno_stream : forall ks data,
+  write_all data (map classify ks) =
+  let '(r, wr, t, rest) := write_all_k data ks in (r, wr, t, map classify rest).
+Proof. exact write_all_k_sim. Qed.
+Print Assumptions write_all_errno_stream.
+
+Theorem read_at_errno_stream : forall content ks off size,
+  read_at_loop content off size (map classify ks) =
+  let '(r, g, t, rest) := read_at_loop_k content off size ks in (r, g, t, map classify rest).
+Proof. exact read_at_loop_k_sim. Qed.
+Print Assumptions read_at_errno_stream.
+
+Theorem write_at_errno_stream : forall ks off data,
+  write_at_loop off data (map classify ks) =
+  let '(r, wr, t, rest) := write_at_loop_k off data ks in (r, wr, t, map classify rest).
+Proof. exact write_at_loop_k_sim. Qed.
+Print Assumptions write_at_errno_stream.
+
+Theorem ftruncate_errno_stream : forall len ks,
+  ftruncate_loop len (map classify ks) =
+  let '(r, t, rest) := ftruncate_loop_k len ks in (r, t, map classify rest).
+Proof. exact ftruncate_loop_k_sim. Qed.
+Print Assumptions ftruncate_errno_stream.
+
+(* (2) a would-block is not end-of-file: read() answering -1/EAGAIN (any errno but EINTR) makes
+   precache return SQFS_ERROR_IO with the eof flag clear and the buffer untouched; read()
+   answering 0 is success with the eof flag set.  Same split for write/pread/pwrite. *)
+Theorem read_would_block_is_error : forall bufsz used src e ks,
+  used < bufsz -> hard (KErrno e) = true ->
+  refill_k bufsz used src (KErrno e :: ks) = (Err e_io, [], false, src, [(KRead, bufsz - used, 0, Fail)], ks).
+Proof. exact refill_k_hard. Qed.
+Print Assumptions read_would_block_is_error.
+
+Theorem read_zero_is_eof : forall bufsz used src ks,
+  used < bufsz ->
+  refill_k bufsz used src (KZero :: ks) = (Ok tt, [], true, src, [(KRead, bufsz - used, 0, Zero)], ks).
+Proof. exact refill_k_zero. Qed.
+Print Assumptions read_zero_is_eof.
+
+Theorem write_would_block_is_error : forall data e ks,
+  0 < lenN data -> hard (KErrno e) = true ->
+  write_all_k data (KErrno e :: ks) = (Err e_io, [], [(KWrite, lenN data, 0, Fail)], ks).
+Proof. exact write_all_k_hard. Qed.
+Print Assumptions write_would_block_is_error.
+
+Theorem pread_would_block_is_error : forall content off size e ks,
+  0 < size -> hard (KErrno e) = true ->
+  read_at_loop_k content off size (KErrno e :: ks) = (Err e_io, [], [(KPread, size, off, Fail)], ks).
+Proof. exact read_at_loop_k_hard. Qed.
+Print Assumptions pread_would_block_is_error.
+
+Theorem pwrite_would_block_is_error : forall off data e ks,
+  0 < lenN data -> hard (KErrno e) = true ->
+  write_at_loop_k off data (KErrno e :: ks) = (Err e_io, [], [(KPwrite, lenN data, off, Fail)], ks).
+Proof. exact write_at_loop_k_hard. Qed.
+Print Assumptions pwrite_would_block_is_error.
+
+Example ex_eagain_hard : hard Eagain = true /\ classify Eagain = Fail /\ classify (KErrno c_EINTR) = Eintr /\
+                         classify KZero = Zero.
+Proof. repeat split. Qed.
+
+(* (3) the output side on every stream: success = everything delivered, failed call = error *)
+Theorem realize_sparse_every_stream : forall zchunk o outs r o' t rest,
+  0 < zchunk -> realize_sparse zchunk o outs = (r, o', t, rest) ->
+  (r = Ok tt -> o' = realized o) /\ (has_fail t = true -> is_err r = true).
+Proof. exact realize_sparse_any. Qed.
+Print Assumptions realize_sparse_every_stream.
+
+Theorem ostream_append_every_stream : forall zchunk o data n outs r o' t rest,
+  0 < zchunk -> ostream_append zchunk o data n outs = (r, o', t, rest) ->
+  (r = Ok tt -> o' = append_state o data n) /\ (has_fail t = true -> is_err r = true).
+Proof. exact ostream_append_any. Qed.
+Print Assumptions ostream_append_every_stream.
+
+Theorem ostream_flush_every_stream : forall zchunk o outs r o' t rest,
+  0 < zchunk -> ostream_flush zchunk o outs = (r, o', t, rest) ->
+  (r = Ok tt -> o' = realized o) /\ (has_fail t = true -> is_err r = true).
+Proof. exact ostream_flush_any. Qed.
+Print Assumptions ostream_flush_every_stream.
+
+(* sqfs_istream_splice, every stream: a success moved exactly the bytes taken off the input to the
+   output stream and stopped short only at the real end; no byte is lost on an error either *)
+Theorem splice_every_stream : forall bufsz zchunk, 0 < bufsz -> 0 < zchunk ->
+  forall fuel size total w outs r w' t rest,
+  wf bufsz (w_in w) -> size <= N.of_nat fuel ->
+  run bufsz zchunk (splice_c fuel size total) w outs = (r, w', t, rest) ->
+  wf bufsz (w_in w') /\ w_file w' = w_file w /\
+  (eof_ok (w_in w) (w_src w) -> has_zero t = false -> eof_ok (w_in w') (w_src w')) /\
+  exists got,
+    pending (w_in w) (w_src w) = got ++ pending (w_in w') (w_src w') /\ lenN got <= size /\
+    match r with
+    | RRet n d => d = [] /\ n = total + lenN got /\ has_fail t = false /\
+                  w_out w' = append_data (w_out w) got /\
+                  (lenN got < size -> window (w_in w') = [] /\ i_eof (w_in w') = true)
+    | RErr e => True
+    | RFuel => False
+    end.
+Proof. exact splice_any. Qed.
+Print Assumptions splice_every_stream.
+
+(* (4) the istream consumers on every stream *)
+Theorem get_line_every_stream : forall bufsz zchunk flags, 0 < bufsz ->
+  forall fuel line skipped w outs r w' t rest,
+  wf bufsz (w_in w) ->
+  lenN (pending (w_in w) (w_src w)) < N.of_nat fuel ->
+  run bufsz zchunk (get_line_c fuel flags line skipped) w outs = (r, w', t, rest) ->
+  wf bufsz (w_in w') /\ w_out w' = w_out w /\ w_file w' = w_file w /\
+  match r with
+  | LErr e => e = e_io /\ has_fail t = true
+  | _ => has_fail t = false /\
+         (eof_ok (w_in w) (w_src w) -> has_zero t = false ->
+          (r, pending (w_in w') (w_src w')) = spec_gl flags line skipped (pending (w_in w) (w_src w)) /\
+          eof_ok (w_in w') (w_src w'))
+  end.
+Proof. exact get_line_any. Qed.
+Print Assumptions get_line_every_stream.
+
+Theorem tar_header_every_stream : forall bufsz zchunk fuel w outs r w' t rest,
+  0 < bufsz -> wf bufsz (w_in w) -> sizeof_tar_header_t <= N.of_nat fuel ->
+  run bufsz zchunk (header_read fuel) w outs = (r, w', t, rest) ->
+  let P := pending (w_in w) (w_src w) in
+  wf bufsz (w_in w') /\
+  match r with
+  | TErr e => e = e_io /\ has_fail t = true
+  | TData d => has_fail t = false /\ d = takeN sizeof_tar_header_t P /\ lenN d = sizeof_tar_header_t /\
+               pending (w_in w') (w_src w') = dropN sizeof_tar_header_t P
+  | TShort => has_fail t = false /\
+              (eof_ok (w_in w) (w_src w) -> has_zero t = false ->
+               lenN P < sizeof_tar_header_t /\ pending (w_in w') (w_src w') = [])
+  | TFuel => False
+  end.
+Proof. exact header_read_any. Qed.
+Print Assumptions tar_header_every_stream.
+
+Theorem tar_record_every_stream : forall bufsz zchunk fuel size w outs r w' t rest,
+  0 < bufsz -> wf bufsz (w_in w) -> size <= s32_max -> size + tar_rec <= N.of_nat fuel ->
+  run bufsz zchunk (record_to_memory fuel size) w outs = (r, w', t, rest) ->
+  let P := pending (w_in w) (w_src w) in
+  wf bufsz (w_in w') /\
+  match r with
+  | TErr e => e = e_io /\ has_fail t = true
+  | TData d => has_fail t = false /\ d = takeN size P /\ lenN d = size
+  | TShort => has_fail t = false /\
+              (eof_ok (w_in w) (w_src w) -> has_zero t = false -> lenN P < size)
+  | TFuel => False
+  end.
+Proof. exact record_to_memory_any. Qed.
+Print Assumptions tar_record_every_stream.
+
+(* (5) end to end over the errno-carrying stream: EITHER the result of the one-shot run OR an
+   error -- never end-of-file / "end of archive" / a short record as a success on a would-block *)
+Theorem get_line_no_silent_truncation : forall bufsz zchunk flags fuel w ks r w' t rest,
+  0 < bufsz -> wf bufsz (w_in w) -> eof_ok (w_in w) (w_src w) ->
+  lenN (pending (w_in w) (w_src w)) < N.of_nat fuel ->
+  run_k bufsz zchunk (istream_get_line fuel flags) w ks = (r, w', t, rest) ->
+  (r = LErr e_io /\ has_fail t = true) \/
+  (has_fail t = false /\
+   (has_zero t = false ->
+    (r, pending (w_in w') (w_src w')) = spec_gl flags [] 0 (pending (w_in w) (w_src w)))).
+Proof. exact get_line_either. Qed.
+Print Assumptions get_line_no_silent_truncation.
+
+Theorem tar_header_no_silent_truncation : forall bufsz zchunk fuel w ks r w' t rest,
+  0 < bufsz -> wf bufsz (w_in w) -> eof_ok (w_in w) (w_src w) ->
+  sizeof_tar_header_t <= N.of_nat fuel ->
+  run_k bufsz zchunk (header_read fuel) w ks = (r, w', t, rest) ->
+  let P := pending (w_in w) (w_src w) in
+  (r = TErr e_io /\ has_fail t = true) \/
+  (has_fail t = false /\
+   (has_zero t = false ->
+    r = if lenN P <? sizeof_tar_header_t then TShort else TData (takeN sizeof_tar_header_t P))).
+Proof. exact header_read_either. Qed.
+Print Assumptions tar_header_no_silent_truncation.
+
+Theorem tar_record_no_silent_truncation : forall bufsz zchunk fuel size w ks r w' t rest,
+  0 < bufsz -> wf bufsz (w_in w) -> eof_ok (w_in w) (w_src w) ->
+  size <= s32_max -> size + tar_rec <= N.of_nat fuel ->
+  run_k bufsz zchunk (record_to_memory fuel size) w ks = (r, w', t, rest) ->
+  let P := pending (w_in w) (w_src w) in
+  (r = TErr e_io /\ has_fail t = true) \/
+  (has_fail t = false /\
+   (has_zero t = false -> r = if lenN P <? size then TShort else TData (takeN size P))).
+Proof. exact record_to_memory_either. Qed.
+Print Assumptions tar_record_no_silent_truncation.
+
+(* ---- concrete streams with an Eagain in the middle (hypotheses of (5) hold: ex_wf, fuel 600) ---- *)
+Definition ex_text_world : world :=
+  {| w_in := istate_init; w_src := [104;105;10;120;121;122;10]; w_out := w_out ex_world; w_file := w_file ex_world |}.
+Definition ex_ks_eagain : list kout := [KXfer 1; KErrno c_EINTR; KXfer 1; Eagain; KXfer 9].
+Definition ex_ks_zero : list kout := [KXfer 1; KErrno c_EINTR; KXfer 1; KZero; KXfer 9].
+Definition ex_ks_ok : list kout := [KXfer 1; KErrno c_EINTR; KXfer 1; KXfer 2; KXfer 9].
+
+(* BUFSZ 4: the refill loop reads "h", is interrupted, reads "i", then the kernel says EAGAIN:
+   get_line is an error; the trace shows the failed call; nothing was consumed from the line *)
+Example ex_get_line_eagain :
+  let '(r, w', t, _) := run_k 4 1024 (istream_get_line 600 0) ex_text_world ex_ks_eagain in
+  r = LErr e_io /\ has_fail t = true /\ lenN t = 4 /\
+  pending (w_in w') (w_src w') = [104;105;10;120;121;122;10].
+Proof. vm_compute. repeat split; reflexivity. Qed.
+
+(* the same stream with a 0 result instead: the model (as the code) takes it for end-of-file *)
+Example ex_get_line_zero :
+  let '(r, _, t, _) := run_k 4 1024 (istream_get_line 600 0) ex_text_world ex_ks_zero in
+  r = LLine [104;105] 0 /\ has_fail t = false /\ has_zero t = true.
+Proof. vm_compute. repeat split; reflexivity. Qed.
+
+(* and with a transfer: the one-shot line *)
+Example ex_get_line_ok :
+  let '(r, w', t, _) := run_k 4 1024 (istream_get_line 600 0) ex_text_world ex_ks_ok in
+  (r, pending (w_in w') (w_src w')) = spec_gl 0 [] 0 [104;105;10;120;121;122;10] /\
+  has_fail t = false /\ has_zero t = false.
+Proof. vm_compute. repeat split; reflexivity. Qed.
+
+(* after the error the stream object is intact: a second get_line on the remaining answers
+   returns the first line -- no byte was dropped by the failed refill *)
+Example ex_get_line_after_eagain :
+  let '(xs, _, _) := run_ops_k 4 1024 600 [OpLine 0; OpLine 0; OpLine 0] ex_text_world ex_ks_eagain in
+  map fst xs = [XL (LErr e_io); XL (LLine [104;105] 0); XL (LLine [120;121;122] 0)].
+Proof. vm_compute. reflexivity. Qed.
+
+(* the 512-byte header read and record_to_memory with a would-block after 3 of 520 bytes: TErr, not
+   TShort ("end of archive") *)
+Example ex_header_eagain :
+  0 < 64 /\ wf 64 (w_in big_world) /\ eof_ok (w_in big_world) (w_src big_world) /\
+  sizeof_tar_header_t <= N.of_nat 600 /\
+  let '(r, _, t, _) := run_k 64 1024 (header_read 600) big_world [KXfer 3; Eagain; KXfer 600] in
+  r = TErr e_io /\ has_fail t = true.
+Proof.
+  split; [reflexivity|]. split; [apply wf_init|]. split; [apply eof_ok_init|].
+  split; [vm_compute; discriminate|]. vm_compute. split; reflexivity.
+Qed.
+
+Example ex_record_eagain :
+  3 <= s32_max /\ 3 + tar_rec <= N.of_nat 600 /\
+  let '(r, _, t, _) := run_k 4 1024 (record_to_memory 600 3) ex_world [KXfer 2; Eagain; KXfer 1] in
+  r = TErr e_io /\ has_fail t = true.
+Proof. split; [vm_compute; discriminate|]. split; [vm_compute; discriminate|]. vm_compute. split; reflexivity. Qed.
+
+(* write side: EAGAIN after one byte of three -- error, the descriptor holds the prefix [1], and the
+   retry-as-EINTR reading (which would deliver [1;2;3] and report success) is NOT the model *)
+Example ex_write_eagain :
+  let '(xs, w', _) := run_ops_k 4 1024 20 [OpPut [1;2;3]] ex_world [KXfer 1; Eagain; KXfer 9] in
+  (map fst xs, o_content (w_out w')) = ([XU (Err e_io)], [1]).
+Proof. vm_compute. reflexivity. Qed.
+
+(* splice with a would-block on the input side and on the output side *)
+Example ex_splice_eagain :
+  (let '(r, w', _, _) := run_k 4 1024 (istream_splice 20 6) ex_world [KXfer 2; Eagain] in
+   (r, o_content (w_out w'))) = (RErr e_io, []) /\
+  (let '(r, w', _, _) := run_k 4 1024 (istream_splice 20 6) ex_world [KXfer 4; KXfer 1; Eagain] in
+   (r, o_content (w_out w'), pending (w_in w') (w_src w'))) = (RErr e_io, [1], [1;2;3;4;5;6;7;8;9;10;11]).
+Proof. vm_compute. split; reflexivity. Qed.
+
+(* pread: EAGAIN after 2 of 3 bytes is SQFS_ERROR_IO, not a short success *)
+Example ex_pread_eagain :
+  let '(xs, _, _) := run_ops_k 4 1024 20 [OpReadAt 0 3] ex_world [KXfer 2; Eagain] in
+  map fst xs = [XD (Err e_io)].
+Proof. vm_compute. reflexivity. Qed.
+
+(* (6) a would-block in the MIDDLE of the kernel's answers (C12/EagainMid.v): for EVERY process
+   (any client tree) on  pre ++ KErrno e :: post,  e not EINTR, pre = transfers and EINTRs only:
+   EITHER the answer was consumed and the call log shows the failed call, OR it is still unused *)
+From SqfsV Require Import C12.EagainMid.
+
+Theorem process_would_block : forall bufsz zchunk (R : Type) (c : client R) w e post pre r w' t rest,
+  hard (KErrno e) = true -> forallb soft pre = true ->
+  run_k bufsz zchunk c w (pre ++ KErrno e :: post) = (r, w', t, rest) ->
+  has_fail t = true \/
+  exists rest', forallb soft rest' = true /\ rest = map classify (rest' ++ KErrno e :: post).
+Proof. exact @run_k_mid. Qed.
+Print Assumptions process_would_block.
+
+(* the istream consumers: the would-block is EITHER still unused OR the operation is an error --
+   never LEof / a short line / TShort ("end of archive") / a short record *)
+Theorem get_line_would_block_is_error : forall bufsz zchunk flags fuel w e post pre r w' t rest,
+  0 < bufsz -> wf bufsz (w_in w) -> lenN (pending (w_in w) (w_src w)) < N.of_nat fuel ->
+  hard (KErrno e) = true -> forallb soft pre = true ->
+  run_k bufsz zchunk (istream_get_line fuel flags) w (pre ++ KErrno e :: post) = (r, w', t, rest) ->
+  r = LErr e_io \/
+  exists rest', forallb soft rest' = true /\ rest = map classify (rest' ++ KErrno e :: post).
+Proof. exact get_line_would_block. Qed.
+Print Assumptions get_line_would_block_is_error.
+
+Theorem tar_header_would_block_is_error : forall bufsz zchunk fuel w e post pre r w' t rest,
+  0 < bufsz -> wf bufsz (w_in w) -> sizeof_tar_header_t <= N.of_nat fuel ->
+  hard (KErrno e) = true -> forallb soft pre = true ->
+  run_k bufsz zchunk (header_read fuel) w (pre ++ KErrno e :: post) = (r, w', t, rest) ->
+  r = TErr e_io \/
+  exists rest', forallb soft rest' = true /\ rest = map classify (rest' ++ KErrno e :: post).
+Proof. exact header_read_would_block. Qed.
+Print Assumptions tar_header_would_block_is_error.
+
+Theorem tar_record_would_block_is_error : forall bufsz zchunk fuel size w e post pre r w' t rest,
+  0 < bufsz -> wf bufsz (w_in w) -> size <= s32_max -> size + tar_rec <= N.of_nat fuel ->
+  hard (KErrno e) = true -> forallb soft pre = true ->
+  run_k bufsz zchunk (record_to_memory fuel size) w (pre ++ KErrno e :: post) = (r, w', t, rest) ->
+  r = TErr e_io \/
+  exists rest', forallb soft rest' = true /\ rest = map classify (rest' ++ KErrno e :: post).
+Proof. exact record_to_memory_would_block. Qed.
+Print Assumptions tar_record_would_block_is_error.
+
+(* both branches occur: ex_ks_eagain = [KXfer 1; EINTR; KXfer 1] ++ Eagain :: [KXfer 9] is consumed
+   (LErr, see ex_get_line_eagain); with one big transfer in front the line is complete before the
+   would-block is reached and the Eagain is the first unused answer *)
+Example ex_would_block_hyps :
+  hard Eagain = true /\ forallb soft [KXfer 1; KErrno c_EINTR; KXfer 1] = true /\
+  ex_ks_eagain = [KXfer 1; KErrno c_EINTR; KXfer 1] ++ Eagain :: [KXfer 9] /\
+  wf 4 (w_in ex_text_world) /\ lenN (pending (w_in ex_text_world) (w_src ex_text_world)) < N.of_nat 600.
+Proof.
+  split; [reflexivity|]. split; [reflexivity|]. split; [reflexivity|]. split; [apply wf_init|].
+  vm_compute. reflexivity.
+Qed.
+
+Example ex_would_block_unused :
+  let '(r, _, _, rest) := run_k 4 1024 (istream_get_line 600 0) ex_text_world ([KXfer 9] ++ Eagain :: []) in
+  r = LLine [104;105] 0 /\ rest = map classify ([] ++ Eagain :: []).
+Proof. vm_compute. split; reflexivity. Qed.
